@@ -145,7 +145,8 @@ impl Arena {
         // so the two differ for alignments above the page size.
         let base = self.base.as_ptr() as usize;
         let beg = ((base + offset + alignment - 1) & !(alignment - 1)) - base;
-        let end = beg + bytes;
+        // A request near the size of the address space must not wrap around to a small `end`.
+        let end = beg.checked_add(bytes).ok_or(AllocError)?;
 
         if end > commit {
             return self.alloc_raw_bump(beg, end);
@@ -166,6 +167,10 @@ impl Arena {
     fn alloc_raw_bump(&self, beg: usize, end: usize) -> Result<NonNull<[u8]>, AllocError> {
         let offset = self.offset.get();
         let commit_old = self.commit.get();
+        // (the rounding below must not wrap either)
+        if end > self.capacity {
+            return Err(AllocError);
+        }
         let commit_new = (end + ALLOC_CHUNK_SIZE - 1) & !(ALLOC_CHUNK_SIZE - 1);
 
         if commit_new > self.capacity
